@@ -302,10 +302,74 @@ def r12(src, counts):
     return src
 
 
+def r15(src, counts):
+    """A `let x = ..;` at the top level of a function body that shadows parameter `x` is alpha-renamed
+    to `x_shadow` for the remainder of the body (contracts need to name the parameter at every exit)."""
+    m = mask(src)
+    fns = [it for it in walk(items(src, m)) if it.kind == 'fn' and it.has_body]
+    edits = []  # (start, end, text)
+    for it in fns:
+        sig = m[it.start:it.sig_end]
+        po = sig.find('(')
+        if po < 0:
+            continue
+        pc = match_close(m, it.start + po, '(', ')')
+        params = set(re.findall(r'(?:^|[(,])\s*(?:mut\s+)?(\w+)\s*:', m[it.start + po:pc + 1]))
+        params.discard('self')
+        body_lo, body_hi = it.sig_end + 1, it.end
+        # top-level statements: track brace depth
+        depth = 0
+        i = body_lo
+        while i < body_hi:
+            c = m[i]
+            if c == '{':
+                depth += 1
+            elif c == '}':
+                depth -= 1
+            elif depth == 0:
+                mo = re.compile(r'let\s+(mut\s+)?(\w+)\s*(:[^=;]+)?=').match(m, i)
+                if mo and (i == body_lo or not (m[i - 1].isalnum() or m[i - 1] == '_')) and mo.group(2) in params:
+                    name = mo.group(2)
+                    # end of this statement: next `;` at depth 0 (parens/braces balanced)
+                    j = mo.end()
+                    d2 = 0
+                    while j < body_hi:
+                        if m[j] in '({[':
+                            d2 += 1
+                        elif m[j] in ')}]':
+                            d2 -= 1
+                        elif m[j] == ';' and d2 == 0:
+                            break
+                        j += 1
+                    edits.append((mo.start(2), mo.end(2), name + '_shadow'))
+                    for o in re.finditer(r'\b%s\b' % re.escape(name), m[j:body_hi]):
+                        # skip field accesses `.name` and struct-literal field names `name:`
+                        a = j + o.start()
+                        if m[a - 1] == '.':
+                            continue
+                        edits.append((a, a + len(name), name + '_shadow'))
+                    counts['R15.shadowed_param'] += 1
+                    params.discard(name)
+                    i = j
+                    continue
+            i += 1
+    if not edits:
+        return src
+    edits.sort()
+    out = []
+    last = 0
+    for a, b, t in edits:
+        if a < last:
+            continue
+        out.append(src[last:a]); out.append(t); last = b
+    out.append(src[last:])
+    return ''.join(out)
+
+
 def extract_file(path, modpath):
     """Return (rewritten_source, counts)."""
     counts = Counter()
     src = open(path).read()
-    for rule in (r1, r2, r3, r4, r5, r6, r7, r8, r9, r10, r11, r12):
+    for rule in (r1, r2, r3, r4, r5, r6, r7, r8, r9, r10, r11, r12, r15):
         src = rule(src, counts)
     return src, counts
